@@ -121,9 +121,17 @@ def verify(run, E, contract, prefix=None, tier=None, crosscheck=True, known=None
             gl = goals[c]
             if gl is True:
                 continue
-            q = list(p.pc) + list(E.axioms) + [z3.Not(B(gl))] if gl is not False else list(p.pc) + list(E.axioms)
-            queries.append(q)
-            index.append((pi, c))
+            if gl is False:
+                queries.append(list(p.pc) + list(E.axioms))
+                index.append((pi, c))
+                continue
+            # a conjunctive clause is discharged conjunct by conjunct; conjuncts that are literally on the path are skipped
+            for cj in _conjuncts(B(gl)):
+                known = p.pc_ids.get(cj.get_id())
+                if known is True:
+                    continue
+                queries.append(list(p.pc) + list(E.axioms) + [z3.Not(cj)])
+                index.append((pi, c))
     t1 = time.time()
     answers = solve.check_many(queries, tier)
     solve_s = time.time() - t1
@@ -165,10 +173,25 @@ def verify(run, E, contract, prefix=None, tier=None, crosscheck=True, known=None
     return results
 
 
+def _conjuncts(t):
+    out = []
+    st = [t]
+    while st:
+        x = st.pop()
+        if z3.is_and(x):
+            st.extend(x.children())
+        else:
+            out.append(x)
+    return out
+
+
 def cover_paths(run, E, contract, paths):
     for p in paths:
         out, goals, st = p.value
         run.covers["checked"] += 1
+        if p.abstract or p.havoc:
+            run.covers["abstract"] = run.covers.get("abstract", 0) + 1
+            continue            # ghost inputs: cannot be replayed natively (feasibility was checked during exploration)
         r = solve.check_inproc(list(p.pc) + list(E.axioms), 800)
         if r.status != "sat":
             continue
@@ -196,14 +219,36 @@ def cover_paths(run, E, contract, paths):
                               % (contract.name, out, _nat(nat), contract.describe(inputs)))
 
 
+def _search(run, contract, clause, why):
+    """bounded fallback (DESIGN 4.5/6): look for a REAL failing input of this clause among the contract's own samples"""
+    gen = getattr(contract, "sample_inputs", None)
+    if gen is None:
+        return ("noinput", why, None)
+    import random
+    rng = random.Random(run.seed)
+    n = 0
+    for inputs in gen(rng):
+        n += 1
+        try:
+            nat, nc = contract.native_eval(inputs)
+        except Exception:
+            continue
+        if nc and nc.get(clause) is False:
+            return ("confirmed", "%s -> %s violates clause '%s' (found by the bounded search over %d sample inputs; %s)"
+                    % (contract.describe(inputs), _nat(nat), clause, n, why), contract.replay_script(inputs, clause))
+    return ("noinput", "%s; bounded search over %d sample inputs found no failing input" % (why, n), None)
+
+
 def _confirm(run, contract, model, st, clause, out, path):
     """replay a counter-model natively.  Returns (verdict, description, script)."""
     if path.havoc:
         return ("havoc", None, None)
+    if model is None:
+        return _search(run, contract, clause, "solver reported sat without a model")
     try:
         inputs = contract.concretise(model, st)
     except Exception as ex:
-        return ("noinput", "counter-model could not be concretised (%r)" % (ex,), None)
+        return _search(run, contract, clause, "counter-model could not be concretised (%r)" % (ex,))
     if inputs is None:
         return ("noinput", "no native harness for this contract", None)
     try:
@@ -217,7 +262,7 @@ def _confirm(run, contract, model, st, clause, out, path):
         return ("confirmed", "%s -> %s violates clause '%s'" % (desc, _nat(nat), clause),
                 contract.replay_script(inputs, clause))
     if path.abstract:
-        return ("noinput", "counter-model involves abstract match groups; its string %s does not fail natively" % (desc,), None)
+        return _search(run, contract, clause, "counter-model involves ghost values; its concretisation %s does not fail natively" % (desc,))
     return ("fault", "input %s: CPython gives %s and clause '%s' holds natively" % (desc, _nat(nat), clause), None)
 
 
